@@ -24,7 +24,7 @@ def replay(kind):
 
 
 def _load_extras():
-    for extra in ("harness.replays_parser", "harness.replays_matrix"):
+    for extra in ("harness.replays_ch", "harness.replays_matrix"):
         try:
             __import__(extra)
         except ModuleNotFoundError as e:
